@@ -96,6 +96,10 @@ NextPodCall(calls, k) == LET S == {j \in (k + 1)..Len(calls) : Res(calls[j]) = "
 
 ---------------------------------------------------------------------------------------
 (* C03 - only pods that must go are deleted                                            *)
+\* up to date: the pod's revision is the one stored revision that records the set's template (whatever revision the
+\* reconcile may have declared the update revision)
+UpToDateRev(sn, rev) == LET same == {x \in SeqToSet(sn.revs) : x.tmpl = sn.set.tmpl} IN
+                        Cardinality(same) = 1 /\ \E x \in same : x.name = rev
 DeleteJustified(sn, calls, k) ==
   LET t == Target(sn, calls, k) u == UpdObs(sn, calls) IN
   /\ t.known /\ t.part
@@ -106,6 +110,7 @@ DeleteJustified(sn, calls, k) ==
               j > 0 /\ IsPodCreate(calls[j]) /\ Name(calls[j]) = Name(calls[k])
            \/ \E j \in (k + 1)..Len(calls) : IsClaimCall(calls[j]) /\ ~OK(calls[j])   \* claim failed: no pod create (C06)
      \/ /\ sn.set.strat = "RollingUpdate" /\ t.ord >= Partition(sn) /\ t.rev # u  \* (c)
+        /\ ~UpToDateRev(sn, t.rev)          \* "a live pod of the desired set that is up to date is never deleted"
 C03Raw(sn, calls) == \A k \in Idx(calls) : IsPodDelete(calls[k]) => DeleteJustified(sn, calls, k)
 
 (* C04 - creates only at vacant desired ordinals                                       *)
@@ -246,6 +251,11 @@ C08(sn, calls, res) ==
              /\ Ints(c)[6] >= sn.set.status.collisions +
                    Cardinality({j \in 1..(k - 1) : IsRevCreate(calls[j]) /\ Result(calls[j]) = "AlreadyExists"
                                                    /\ \E x \in SeqToSet(sn.revs) : x.name = Name(calls[j]) /\ x.tmpl # sn.set.tmpl})
+
+  \* "re-uses that earlier revision, renumbered above all others": a reconcile cannot succeed on a renumbering that failed
+  /\ res = "ok" => \A k \in Idx(calls) :
+        (IsRevUpdate(calls[k]) /\ Det(calls[k]) = "renumber" /\ ~OK(calls[k])) =>
+           \E j \in (k + 1)..Len(calls) : IsRevUpdate(calls[j]) /\ Det(calls[j]) = "renumber" /\ Name(calls[j]) = Name(calls[k]) /\ OK(calls[j])
 
 (* C10 - ownership                                                                     *)
 ForeignPod(p) == p.owner \in {"other", "stale"}
